@@ -937,3 +937,84 @@ mod tests {
   }
 }
 
+// Verification hook (see /verif): lets an external harness run the real per-device loop against a
+// scripted driver, and call the two private exclusion functions. Compiled only with
+// `--cfg ellbur_totalmapper_verif`; adds no behaviour otherwise.
+#[cfg(ellbur_totalmapper_verif)]
+pub mod verif {
+  use super::*;
+  
+  pub enum VPoll {
+    // true = keyboard, false = tablet switch, in the order reported
+    Devices(Vec<bool>),
+    TimedOut,
+    Interrupted
+  }
+  
+  pub enum VNext<T> {
+    End,
+    Busy,
+    One(T)
+  }
+  
+  pub trait ScriptedDriver {
+    fn register_poll(&mut self) -> Result<(), String>;
+    fn poll(&mut self, timeout: Option<Duration>) -> Result<VPoll, String>;
+    fn next_keyboard(&mut self) -> Result<VNext<Event>, String>;
+    // true = On, false = Off
+    fn next_tablet(&mut self) -> Result<VNext<bool>, String>;
+    fn send(&mut self, evs: &Vec<Event>) -> Result<(), String>;
+  }
+  
+  struct Adapter<'d, D: ScriptedDriver> {
+    inner: &'d mut D
+  }
+  
+  impl<'d, D: ScriptedDriver> Driver for Adapter<'d, D> {
+    type PollRegistry = ();
+    
+    fn register_poll(&mut self) -> Result<(), String> {
+      self.inner.register_poll()
+    }
+    
+    fn poll(&mut self, _registry: &mut (), timeout: Option<Duration>) -> Result<PollResult, String> {
+      Ok(match self.inner.poll(timeout)? {
+        VPoll::Devices(ds) => PollResult::DeviceEvent(ds.into_iter().map(|k| if k { Device::Keyboard } else { Device::Tablet }).collect()),
+        VPoll::TimedOut => PollResult::TimedOut,
+        VPoll::Interrupted => PollResult::Interrupted
+      })
+    }
+    
+    fn next_keyboard(&mut self) -> Result<Next<Event>, String> {
+      Ok(match self.inner.next_keyboard()? {
+        VNext::End => Next::End,
+        VNext::Busy => Next::Busy,
+        VNext::One(e) => Next::One(e)
+      })
+    }
+    
+    fn next_tablet(&mut self) -> Result<Next<TableModeEvent>, String> {
+      Ok(match self.inner.next_tablet()? {
+        VNext::End => Next::End,
+        VNext::Busy => Next::Busy,
+        VNext::One(on) => Next::One(if on { On } else { Off })
+      })
+    }
+    
+    fn send(&mut self, evs: &Vec<Event>) -> Result<(), String> {
+      self.inner.send(evs)
+    }
+  }
+  
+  pub fn run_one_device<D: ScriptedDriver>(driver: &mut D, layout: Layout) -> Result<(), String> {
+    do_remapping_loop_one_device(&mut Adapter { inner: driver }, layout, false)
+  }
+  
+  pub fn excluded_flags_keyboards(devices: Vec<ExtractedKeyboard>, excludes: &[&str]) -> Vec<bool> {
+    flag_excluded(devices, excludes).into_iter().map(|d| d.excluded).collect()
+  }
+  
+  pub fn excluded_flags_input_devices(devices: Vec<ExtractedInputDevice>, excludes: &[&str]) -> Vec<bool> {
+    flag_excluded_input_devices(devices, excludes).into_iter().map(|d| d.excluded).collect()
+  }
+}
